@@ -273,13 +273,16 @@ def _run(orc, meas, skipped, idx, it, r, progs, mod, k):
 def _expect_descr(prog, r):
     import ufl
     e = r["expr"]
+    from ufl.algorithms.apply_algebra_lowering import apply_algebra_lowering
+    from ufl.algorithms.apply_derivatives import apply_derivatives
     oc = ufl.algorithms.extract_coefficients(e)
+    surv = ufl.algorithms.extract_coefficients(apply_derivatives(apply_algebra_lowering(e)))
     P = np.asarray(r["points"])
     return {"num_points": int(P.shape[0]), "entity_dimension": int(P.shape[1]),
             "points": [float(v) for v in P.reshape(-1)], "value_shape": [int(v) for v in prog.value_shape],
             "num_components": len(prog.value_shape), "rank": prog.rank,
             "num_coefficients": len(prog.coefs), "num_constants": len(prog.const_sizes),
-            "original_coefficient_positions": list(range(len(oc)))}
+            "original_coefficient_positions": [oc.index(c_) for c_ in surv]}
 
 
 if __name__ == "__main__":
